@@ -1,5 +1,5 @@
-"""./vf replay <path>: show a recorded violation and, for the HFModel family (C01 C02 C10 C12), re-run exactly that case
-against the current tree (numpy, 64b)."""
+"""./vf replay <path>: show a recorded violation and, for the HFModel family (C01 C02 C10 C12) and C04, re-run exactly that
+case against the current tree."""
 import json
 import random
 import sys
@@ -24,6 +24,19 @@ def main(path):
         if not mine:
             print("the recorded case passes on the current tree")
         return 1 if mine else 0
+    if prop == "C04" and isinstance(det, dict) and "obligation" in det and "backend" in det:
+        from common import use_pyhf_src
+        use_pyhf_src()
+        import pyhf
+        import prob_replay
+        pyhf.set_backend(det["backend"], precision=det["prec"])
+        line = json.dumps({"backend": det["backend"], "prec": det["prec"], "obligation": det["obligation"]})
+        out = prob_replay.replay(pyhf, det["backend"], det["prec"], [line])
+        for key, _, _ in out["findings"]:
+            print("STILL FAILS:", key)
+        if not out["findings"]:
+            print("the recorded obligation is discharged on the current tree")
+        return 1 if out["findings"] else 0
     print(json.dumps(det, indent=1, default=str)[:6000])
     print("\n(no single-case re-execution for this property: re-run  ./vf check", prop, "--tier quick )")
     return 0
